@@ -786,23 +786,35 @@ func c07IDsComparedAsWritten(c *cx, id string) {
 		}
 		f.WalkBody(func(nd ast.Node) bool {
 			be, ok := nd.(*ast.BinaryExpr)
-			if !ok || (be.Op != token.EQL && be.Op != token.NEQ) {
+			if !ok {
 				return true
 			}
 			var other ast.Expr
-			if s, ok := f.ConstStr(be.Y); ok && s == "" {
-				other = be.X
-			} else if s, ok := f.ConstStr(be.X); ok && s == "" {
-				other = be.Y
+			switch be.Op {
+			case token.EQL, token.NEQ:
+				if s, ok := f.ConstStr(be.Y); ok && s == "" {
+					other = be.X
+				} else if s, ok := f.ConstStr(be.X); ok && s == "" {
+					other = be.Y
+				}
+			}
+			// the same test spelled with len(): len(x) == 0, len(x) > 0, 0 < len(x), ...
+			if other == nil {
+				for _, side := range []ast.Expr{be.X, be.Y} {
+					if cl, ok := ast.Unparen(side).(*ast.CallExpr); ok && f.CalleeID(cl) == "builtin.len" && len(cl.Args) == 1 {
+						if t := f.Info().TypeOf(cl.Args[0]); t != nil {
+							if b, isB := t.Underlying().(*types.Basic); isB && b.Info()&types.IsString != 0 {
+								other = cl.Args[0]
+							}
+						}
+					}
+				}
 			}
 			if other == nil {
 				return true
 			}
 			n++
 			_, isCall := ast.Unparen(other).(*ast.CallExpr)
-			if isCall && f.CalleeID(ast.Unparen(other).(*ast.CallExpr)) == "builtin.len" {
-				isCall = false
-			}
 			c.r.Check(id, f, "emptiness test", "P: attribute values are tested for emptiness as they were written", be.Pos(), !isCall, "tests "+f.Norm(other, nil)+": an id (or type) that differs from the empty string is treated as missing")
 			return true
 		})
